@@ -83,6 +83,9 @@ def run_case(case, reports=False, keep_objects=False):
     saved = (sys.stdout, sys.stderr)
     root = logging.getLogger()
     saved_handlers, saved_level = list(root.handlers), root.level
+    # (a KeyboardInterrupt raised inside a coroutine step leaves an un-retrieved task behind; asyncio reports that through
+    #  its own logger when the task is collected, long after the run: keep that off the console)
+    logging.getLogger("asyncio").setLevel(logging.CRITICAL)
     mark = _MarkHandler()
     # the user's own root handler: present before the run, or (--logging-clear-handlers) installed in before_all as
     # environment files do; the root level starts at Python's default
@@ -180,6 +183,7 @@ def run_case(case, reports=False, keep_objects=False):
         ex = G.EXPRS[cfg["expr"]]
         if ex["text"]:
             args.append("--tags=%s" % ex["text"])
+            args += ["--tags=%s" % t for t in ex.get("more", [])]
         if not reports:
             args.append("--capture" if cfg.get("cap_out", True) else "--no-capture")
             args.append("--capture-stderr" if cfg.get("cap_err", True) else "--no-capture-stderr")
